@@ -94,17 +94,22 @@ class Creators:
       if isinstance(gfa_line, str):
         gfa_line = gfapy.Line(gfa_line, vlevel=self._vlevel,
             dialect=self._dialect)
-      self.header._merge(gfa_line)
+      version = None
       if gfa_line.VN:
         if gfa_line.VN == "1.0":
-          self._version = "gfa1"
+          version = "gfa1"
         elif gfa_line.VN == "2.0":
-          self._version = "gfa2"
+          version = "gfa2"
         else:
-          self._version = gfa_line.VN
+          version = gfa_line.VN
+        if self._vlevel > 0 and version not in gfapy.VERSIONS:
+          # refuse the line before anything of it is stored
+          raise gfapy.VersionError(
+              "GFA specification version {} not supported".format(version))
+      self.header._merge(gfa_line)
+      if version is not None:
+        self._version = version
         self._version_explanation = "specified in header VN tag"
-        if self._vlevel > 0:
-          self._validate_version()
         self.process_line_queue()
     elif rt == "S":
       if isinstance(gfa_line, str):
@@ -116,11 +121,12 @@ class Creators:
       self.process_line_queue()
       gfa_line.connect(self)
     elif rt in ["E", "F", "G", "U", "O"]:
+      if isinstance(gfa_line, str):
+        # parse first: a malformed line must not decide the version
+        gfa_line = gfapy.Line(gfa_line, vlevel=self._vlevel,
+            version="gfa2", dialect=self._dialect)
       self._version = "gfa2"
       self._version_explanation = "implied by: presence of a {} line".format(rt)
-      if isinstance(gfa_line, str):
-        gfa_line = gfapy.Line(gfa_line, vlevel=self._vlevel,
-            version=self._version, dialect=self._dialect)
       self.process_line_queue()
       gfa_line.connect(self)
     elif rt in ["L", "C", "P"]:
